@@ -34,7 +34,7 @@ static uint64_t fingerprint(const OpResult& o, std::string* text = nullptr)
 
 static PlanOp gen_any_op(Rng& rng, bool thorough)
 {
-    std::vector<std::string> pk = keys_for({ "G1", "G2", "G3", "G4", "G5", "G6", "G7", "G8", "G9", "T1" });
+    std::vector<std::string> pk = keys_for({ "G1", "G2", "G3", "G4", "G5", "G6", "G7", "G8", "G9", "G10", "G11", "T1" });
     std::vector<std::string> rk = regex_keys();
     uint64_t k = rng.below(100);
     PlanOp op;
@@ -192,6 +192,7 @@ static std::vector<Violation> case_c15(const Plan& p, CaseCtx& cx)
                 Plan s;
                 s.seed = p.seed; s.index = p.index; s.property = "C15"; s.mode = "solo";
                 s.tasks.emplace_back(); s.tasks[0].ops.push_back(p.tasks[t].ops[i]);
+                s.hash_images = true;
                 RunResult r = exec_plan(s, kFlags);
                 cx.hashes.push_back(r.hash);
                 std::string tx;
@@ -205,7 +206,8 @@ static std::vector<Violation> case_c15(const Plan& p, CaseCtx& cx)
     std::vector<std::vector<std::string>> tb, ta;
     solo(before, tb);
 
-    RunResult rr = exec_plan(p, kFlags);
+    Plan ph = p; ph.hash_images = true;
+    RunResult rr = exec_plan(ph, kFlags);
     account(cx, p, rr, rr.overlap > 0 || (p.mode == "history" && p.tasks.size() >= 1));
     if (cx.st)
     {
@@ -251,7 +253,7 @@ static std::vector<Violation> case_c15(const Plan& p, CaseCtx& cx)
                 return vs;
             }
             if (cx.st && o.op.api == API_CONTEXT_PARSE) cx.st->add("contexts_checked");
-            if (cx.st && o.op.heap) cx.st->add("heap_instance_images_checked");
+            if (cx.st) cx.st->add(o.op.heap ? "heap_instance_images_checked" : "static_instance_images_checked");
         }
     // 2. canaries
     for (size_t i = 0; i < canary0.size() && i < canary1.size(); ++i)
